@@ -107,6 +107,20 @@ def step0 (st : St) (toks : List String) : St × String :=
       (st, showCounts (Facet.counts st.s (Keyword.applyAny st.s.ks ks) om) ++ " ## " ++
            showCounts (Spec.counts st.s.facets st.t (Keyword.Spec.any kt ks) om))
     | _, _ => (st, "bad-op")
+  -- counts() fed with the index's own enumerations docids() / indexed() / not_indexed()
+  | "countsd" :: kind :: "|" :: b =>
+    let kt := Spec.kwTable st.s.facets st.t
+    let kn := Keyword.Spec.known kt
+    let sel : Option (List Int × List Int) :=
+      if kind = "docids" then some (Keyword.docids st.s.ks, kn)
+      else if kind = "indexed" then
+        some (Keyword.indexed st.s.ks, kn.filter (fun d => !(Keyword.Spec.kwOf kt d).isEmpty))
+      else if kind = "notindexed" then some (st.s.ks.notIndexed, kn.filter (fun d => Keyword.Spec.withdrawn kt d))
+      else none
+    match sel, facets? b with
+    | some (ds, sds), some om =>
+      (st, showCounts (Facet.counts st.s ds om) ++ " ## " ++ showCounts (Spec.counts st.s.facets st.t sds om))
+    | _, _ => (st, "bad-op")
   | ["obs"] => (st, obs st)
   -- C06: a new index over the same facets with the current threshold that indexed the current
   -- mapping once (model side: really built, `Facet.fresh`; specification side: the table's answer)
